@@ -82,6 +82,10 @@ func Dec(name string) math.LegacyDec      { return math.LegacyNewDecFromBigIntWi
 func DecN(name string, bits int) math.LegacyDec {
 	return math.LegacyNewDecFromBigIntWithPrec(val(name), 18)
 }
+func IntS(name string, bits int) math.Int { return math.NewIntFromBigInt(val(name)) }
+func DecS(name string, bits int) math.LegacyDec {
+	return math.LegacyNewDecFromBigIntWithPrec(val(name), 18)
+}
 func Time(name string) time.Time {
 	v, ok := S.Sc.Values[name]
 	if !ok || v == "" {
@@ -168,7 +172,7 @@ func render(v any) string {
 		if x == nil {
 			return "<nil>"
 		}
-		return "err:" + x.Error()
+		return "err"
 	case math.Int:
 		if x.IsNil() {
 			return "<nil>"
